@@ -178,6 +178,8 @@ def accepts_py(S, t, v):
         return isinstance(v, str) and (t["mn"] == -1 or len(v) >= t["mn"]) and (t["mx"] == -1 or len(v) <= t["mx"])
     if k == "time":
         return v in TIMES
+    if k == "bytes":
+        return v in ("YQ==", "YWI=")
     if k == "enum":
         return isinstance(v, str) and v in t["vals"]
     if k == "ienum":
@@ -301,6 +303,8 @@ def walk(schema, path, doc=None):
     while node["k"] in ("ref", "nullable"):
         if node["k"] == "nullable":
             toks.append("nullable")
+        elif S[node["name"]]["k"] not in ("struct", "ref", "arr", "map", "dunion"):
+            toks.append("named-scalar")      # reference to a NAMED scalar / enum object
         node = S[node["name"]] if node["k"] == "ref" else node["t"]
     bk = []
     if node["k"] in ("int", "num"):
@@ -313,6 +317,63 @@ def walk(schema, path, doc=None):
         if not out or out[-1] != x:
             out.append(x)
     return (">".join(out) or "top", node["k"], bk)
+
+
+def walk_loose(schema, fields):
+    """Position class of a path given by FIELD NAMES only (arrays, maps, nullables, union branches are crossed implicitly)."""
+    S = defs_of(schema)
+    t = S[schema["root"]]
+    toks = []
+
+    def settle(t):
+        for _ in range(32):
+            k = t["k"]
+            if k == "ref":
+                tk = S[t["name"]]["k"]
+                toks.append("named-array" if tk == "arr" else "named-map" if tk == "map" else "ref" if tk in ("struct", "ref", "dunion") else "named-scalar")
+                t = S[t["name"]]
+                if tk in ("arr", "map"):
+                    t = t["t"]
+            elif k == "nullable":
+                toks.append("nullable")
+                t = t["t"]
+            elif k == "arr":
+                toks.append("array")
+                t = t["t"]
+            elif k == "map":
+                toks.append("map")
+                t = t["t"]
+            else:
+                return t
+        return t
+
+    for i, name in enumerate(fields):
+        t = settle(t)
+        if t["k"] == "dunion":
+            toks.append("union-branch")
+            hit = [S[r] for r in t["refs"] if any(f["n"] == name for f in S[r]["fields"])]
+            if not hit:
+                break
+            t = hit[0]
+        if t["k"] != "struct":
+            break
+        f = [f for f in t["fields"] if f["n"] == name]
+        if not f:
+            break
+        f = f[0]
+        if not f["req"]:
+            toks.append("optional")
+        if f["null"]:
+            toks.append("nullable")
+        if f["def"]["j"] != "none":
+            toks.append("defaulted")
+        t = f["t"]
+    t = settle(t)
+    out = []
+    for x in toks:
+        if not out or out[-1] != x:
+            out.append(x)
+    return ">".join(out) or "top", t["k"]
 
 
 def union_branch_names(schema):
@@ -436,6 +497,10 @@ def _js_type(t, openapi, refprefix):
         return {"type": "boolean"}
     if k == "time":
         return {"type": "string", "format": "date-time"}
+    if k == "bytes":
+        if not openapi:
+            raise NotExpressible("bytes: cog's JSON Schema parser has no byte strings")
+        return {"type": "string", "format": "byte"}
     if k == "enum":
         return {"type": "string", "enum": list(t["vals"])}
     if k == "ienum":
@@ -460,6 +525,11 @@ def _js_type(t, openapi, refprefix):
     if k == "map":
         return {"type": "object", "additionalProperties": _js_type(t["t"], openapi, refprefix)}
     if k == "ref":
+        if "." in t["name"]:
+            # a definition of the second package ("x.Name"): only the OpenAPI rendering spells cross-file references cog reads
+            if not openapi or _AUX[0] is None:
+                raise NotExpressible("cross-package reference")
+            return {"$ref": _AUX[0] + ".json#/components/schemas/" + t["name"].split(".", 1)[1]}
         return {"$ref": refprefix + t["name"]}
     if k == "nullable":
         return _js_nullable(t["t"], openapi, refprefix)
@@ -500,6 +570,11 @@ CUE_EXT = {}     # kind -> f(cue_renderer, t) -> CUE expression
 
 def _js_nullable(t, openapi, refprefix):
     if not openapi:
+        if t["k"] == "union":
+            # a nullable union is ONE union with a null branch (string | boolean | null), not a union inside a union
+            inner = _js_type(t, openapi, refprefix)
+            key = "anyOf" if "anyOf" in inner else "oneOf"
+            return {key: inner[key] + [{"type": "null"}]}
         return {"oneOf": [_js_type(t, openapi, refprefix), {"type": "null"}]}
     if t["k"] in ("int", "num", "str", "time"):
         out = dict(_js_type(t, openapi, refprefix))
@@ -509,15 +584,50 @@ def _js_nullable(t, openapi, refprefix):
 
 
 def render_jsonschema(schema):
+    if has_second_package(schema):
+        raise NotExpressible("two packages: cog's JSON Schema parser resolves every reference into its own package")
     doc = {"$schema": "http://json-schema.org/draft-07/schema#", "$ref": "#/definitions/" + schema["root"],
            "definitions": {d["name"]: _js_type(d["t"], False, "#/definitions/") for d in schema["defs"]}}
     return json.dumps(doc, indent=1)
 
 
-def render_openapi(schema):
-    doc = {"openapi": "3.0.0", "info": {"title": "t", "version": "0.0"}, "paths": {},
-           "components": {"schemas": {d["name"]: _js_type(d["t"], True, "#/components/schemas/") for d in schema["defs"]}}}
-    return json.dumps(doc, indent=1)
+_AUX = [None]   # file stem of the second package while an OpenAPI schema with "x." definitions is rendered
+
+
+def has_second_package(schema):
+    return any("." in d["name"] for d in schema["defs"])
+
+
+def render_openapi(schema, package=None):
+    """Definitions named "x.Name" form a second package: they go into <package>x.json and are referenced across files."""
+    head = {"openapi": "3.0.0", "info": {"title": "t", "version": "0.0"}, "paths": {}}
+    _AUX[0] = (package + "x") if (package and has_second_package(schema)) else None
+    try:
+        main = dict(head, components={"schemas": {d["name"]: _js_type(d["t"], True, "#/components/schemas/")
+                                                  for d in schema["defs"] if "." not in d["name"]}})
+        aux = None
+        if _AUX[0]:
+            stem = _AUX[0]
+            _AUX[0] = None    # inside the second file its own definitions are local; it never refers back
+            aux = dict(head, components={"schemas": {d["name"].split(".", 1)[1]: _js_type(_strip_pkg(d["t"]), True, "#/components/schemas/")
+                                                     for d in schema["defs"] if "." in d["name"]}})
+            return json.dumps(main, indent=1), {stem + ".json": json.dumps(aux, indent=1)}
+        return json.dumps(main, indent=1), None
+    finally:
+        _AUX[0] = None
+
+
+def _strip_pkg(t):
+    """References between definitions of the second package are local there."""
+    if t["k"] == "ref" and "." in t["name"]:
+        return dict(t, name=t["name"].split(".", 1)[1])
+    if t["k"] in ("arr", "map", "nullable"):
+        return dict(t, t=_strip_pkg(t["t"]))
+    if t["k"] == "struct":
+        return dict(t, fields=[dict(f, t=_strip_pkg(f["t"])) for f in t["fields"]])
+    if t["k"] == "union":
+        return dict(t, ts=[_strip_pkg(b) for b in t["ts"]])
+    return t
 
 
 class _Cue:
@@ -551,6 +661,8 @@ class _Cue:
             return " & ".join(parts)
         if k == "bool":
             return "bool"
+        if k == "bytes":
+            raise NotExpressible("bytes: a JSON string is not a CUE bytes value for the reference validator")
         if k == "time":
             self.imports.add("time")
             return "time.Time"
@@ -606,6 +718,8 @@ class _Cue:
 
 
 def render_cue(schema, package):
+    if has_second_package(schema):
+        raise NotExpressible("two packages: not rendered for CUE (needs a library import path)")
     c = _Cue()
     c.defs = defs_of(schema)
     bodies = ["#%s: %s" % (d["name"], c.ty(d["t"])) for d in schema["defs"]]
@@ -619,7 +733,7 @@ def render(schema, fmt, package):
     if fmt == "jsonschema":
         return render_jsonschema(schema)
     if fmt == "openapi":
-        return render_openapi(schema)
+        return render_openapi(schema, package)[0]
     if fmt == "cue":
         return render_cue(schema, package)
     raise ValueError(fmt)
@@ -769,11 +883,13 @@ def pkg_name(sid, fmt):
     return "c%04d%s" % (sid, FMT_LETTER[fmt])
 
 
-def pipeline_yaml(fmt, path, package, go_flags, extra_languages=()):
+def pipeline_yaml(fmt, path, package, go_flags, extra_languages=(), aux=()):
     if fmt == "cue":
         inp = "  - cue:\n      entrypoint: '%s'\n      package: %s\n" % (path, package)
     else:
         inp = "  - %s:\n      path: '%s'\n      package: %s\n" % (fmt, path, package)
+    for apath, apkg in aux:
+        inp += "  - %s:\n      path: '%s'\n      package: %s\n" % (fmt, apath, apkg)
     y = "debug: false\ninputs:\n" + inp + "output:\n  directory: '%l'\n  types: true\n  languages:\n"
     y += "    - go:\n        package_root: '%s/go'\n" % MODULE
     for k, v in sorted(go_flags.items()):
@@ -833,8 +949,16 @@ def generate(ctx, batch, go_flags=None, extra_languages=(), formats=FORMATS):
             else:
                 path = os.path.join(inputs, pkg + ".json")
                 open(path, "w").write(text)
+            aux = []
+            if fmt == "openapi" and has_second_package(schema):
+                for fname, atext in render_openapi(schema, pkg)[1].items():
+                    apath = os.path.join(inputs, fname)
+                    open(apath, "w").write(atext)
+                    aux.append((apath, fname[:-5]))
+                u["path"] = path      # the reference validator has to load it from disk (cross-file references)
+                u["aux_text"] = {f: t for f, t in render_openapi(schema, pkg)[1].items()}
             yp = os.path.join(inputs, pkg + ".yaml")
-            open(yp, "w").write(pipeline_yaml(fmt, path, pkg, go_flags, extra_languages))
+            open(yp, "w").write(pipeline_yaml(fmt, path, pkg, go_flags, extra_languages, aux))
             jobs.append({"id": pkg, "yaml": yp, "root": gen})
     # shard over processes: one cog pipeline per job, isolated from each other's failures
     shards = [jobs[i::NSHARDS] for i in range(NSHARDS)]
@@ -901,6 +1025,9 @@ def build(ctx, batch):
     if rc != 0 and not diags:
         core.log("\n".join(other[-30:]))
         raise core.Inconclusive("go build failed without attributable diagnostics")
+    for k in list(diags):
+        if k not in batch.units and k.endswith("x") and k[:-1] in batch.units:
+            diags[k[:-1]] = diags.get(k[:-1], []) + diags.pop(k)     # second package of a two-package unit
     retry = []
     for u in todo:
         ds = diags.get(u["pkg"], [])
@@ -1078,8 +1205,8 @@ def ref_validate(ctx, batch, items):
                 else:
                     raw = json.dumps(docs)
                     text = u["text"]
-                f.write('{"id":%s,"fmt":%s,"schema":%s,"root":%s,"docs":%s}\n' % (
-                    json.dumps(pkg), json.dumps(u["fmt"]), json.dumps(text), json.dumps(schema["root"]), raw))
+                f.write('{"id":%s,"fmt":%s,"schema":%s,"path":%s,"root":%s,"docs":%s}\n' % (
+                    json.dumps(pkg), json.dumps(u["fmt"]), json.dumps(text), json.dumps(u.get("path", "")), json.dumps(schema["root"]), raw))
         ctx.run_worker(["sem-validate"], stdin_path=inp, stdout_path=outp, timeout=1800)
         for line in open(outp):
             r = json.loads(line)
@@ -1097,7 +1224,7 @@ NSIM = 240          # seeded draws from SemanticsSim per thorough run
 MAX_TWO = 900       # schemas whose two-place documents are enumerated
 
 
-def run_batch(ctx, nquick=52, go_flags=None, extra_languages=(), formats=FORMATS, select=None, must=(), deep=False, extra=None):
+def run_batch(ctx, nquick=62, go_flags=None, extra_languages=(), formats=FORMATS, select=None, must=(), deep=False, extra=None):
     """Catalogue -> selection -> cases -> generation -> build -> driver binary. Returns a Batch.
 
     select(cat) may return the list of ids to use (later properties pick schemas by tag, e.g. defaults).
@@ -1291,7 +1418,7 @@ def _slug(msg, words=5):
 
 
 def _site(line):
-    line = re.sub(r"\bresource\.\w+", "resource.F", line)
+    line = re.sub(r"\b(resource|other)\.\w+", r"\1.F", line)
     line = re.sub(r"\b(result|i|key|parsedMap|partialArray|partialMap)\d+\b", r"\1N", line)
     line = re.sub(r"\b[A-Z]\w*\{\}", "T{}", line)
     line = re.sub(r"\s+", " ", line).strip()
@@ -1320,10 +1447,17 @@ def reject_class(o, which, entry, schema):
         mc = next((v for k, v in known if k in msg), None) or _slug(msg)
         segs = norm_path(paths[0]["path"], schema)
         # the strict decoder names the struct type as last segment for unexpected fields
-        pos = walk(schema, segs, o["case"]["py"])[0]
+        pos, kind, _ = walk(schema, segs, o["case"]["py"])
+        if mc == "cannot-unmarshal":
+            mc += ":" + kind        # which kind of value the decoder could not take: part of the class
         return mc, pos
     msg = rec.get(which + "_err") or ""
     mc = "cannot-unmarshal" if "cannot unmarshal" in msg else _slug(msg)
+    m = re.search(r"Go struct field (\S+) of type", msg)
+    if m:
+        # encoding/json names the field path (Root.v.c, JSON names, collections skipped): a position independent of the schema family
+        pos, kind = walk_loose(schema, m.group(1).split(".")[1:])
+        return (mc + ":" + kind if mc == "cannot-unmarshal" else mc), pos
     return mc, fam
 
 
@@ -1386,7 +1520,9 @@ def judge_docs(batch, obs, clauses):
                     vpos, vkind, vbk = walk(schema, wp, c["py"])
                     what = "wrong-path" if (missing and extra) else "missed" if missing else "spurious"
                     vclause = "%s:%s.%s" % (what, vkind, "+".join(vbk) or "nobound")
-                    if what == "missed" and not real and "named-" in vpos:
+                    if what == "missed" and not real and "named-scalar" in vpos:
+                        vclause = "missed:bounds-of-named-scalar"
+                    elif what == "missed" and not real and "named-" in vpos:
                         # nothing at all is reported for items of a named collection: one class whatever the bound
                         vclause = "missed:items-of-named-collection"
                     add(name, "C08/go/Validate/%s/%s" % (vclause, vpos),
@@ -1412,8 +1548,14 @@ def judge_docs(batch, obs, clauses):
                         val = want
                         for seg in path:
                             val = val[int(seg[1:])] if isinstance(val, list) else val.get(seg) if isinstance(val, dict) else None
+                        gv = got
+                        for seg in path:
+                            gv = gv[int(seg[1:])] if isinstance(gv, list) else gv.get(seg) if isinstance(gv, dict) else None
                         if what == "dropped" and val in ([], {}) and "optional" in dpos.split(">"):
                             rcls = "optional-empty-collection-dropped"
+                        elif what == "changed" and isinstance(val, list) and isinstance(gv, str):
+                            # []uint8 is []byte for encoding/json: one class wherever the array sits
+                            rcls = "integer-array-encoded-as-base64-string"
                         else:
                             rcls = "%s:%s@%s" % (what, dkind, dpos)
                         add("RoundTrip", "C01/go/roundtrip/%s/%s" % (rcls, u["fmt"]),
@@ -1571,6 +1713,23 @@ POSITION_CLASSES = ("top", "optional", "array", "map", "ref", "union-branch")
 MAX_DISAGREE = 0.03
 
 
+def unlisted_failures(ctx):
+    """Failures of this run whose signature is not a listed known finding."""
+    known = {k["signature"] for k in core.load_known() if k["property"] == ctx.pid and k.get("status", "known") == "known"}
+    return [f for f in ctx.failures if f["signature"] not in known]
+
+
+def vacuity_gate(ctx, vac, what="vacuous clauses / position classes (never exercised on executable code)"):
+    """A clause that was never exercised makes the run inconclusive - unless real-code violations were observed on what did
+    run: those are verdicts and are reported (exit 1); the gap is recorded as a note."""
+    if not vac:
+        return
+    if unlisted_failures(ctx):
+        ctx.notes.append("%s: %s (reported after the violations observed on the packages that do execute)" % (what, vac))
+        return
+    raise core.Inconclusive("%s: %s" % (what, vac))
+
+
 def docs_check(ctx, pid, clauses, assumptions, must=(), go_flags=None):
     replay = None
     select = None
@@ -1693,8 +1852,7 @@ def docs_check(ctx, pid, clauses, assumptions, must=(), go_flags=None):
         vac += [k for k in need if per_clause[k] == 0]
         vac += ["position:" + p for p in POSITION_CLASSES if per_pos[p] == 0]
         vac += ["format:" + f for f in FORMATS if per_fmt[f] == 0]
-        if vac:
-            raise core.Inconclusive("vacuous clauses / position classes (never exercised on executable code): %s" % vac)
+        vacuity_gate(ctx, vac)
         judged = sum(per_label.values())
         if n_docs and disagree > MAX_DISAGREE * n_docs:
             raise core.Inconclusive("Accepts and the reference validators disagree on %d of %d documents" % (disagree, n_docs))
